@@ -4,8 +4,8 @@ use crate::wal::block::Block;
 #[cfg(target_os = "linux")]
 use crate::wal::block::Metadata;
 use crate::wal::config::{
-    DEFAULT_BLOCK_SIZE, FsyncSchedule, MAX_BATCH_BYTES, MAX_BATCH_ENTRIES, PREFIX_META_SIZE,
-    debug_print,
+    DEFAULT_BLOCK_SIZE, FsyncSchedule, MAX_ALLOC, MAX_BATCH_BYTES, MAX_BATCH_ENTRIES,
+    PREFIX_META_SIZE, debug_print,
 };
 #[cfg(target_os = "linux")]
 use crate::wal::config::{USE_FD_BACKEND, checksum64};
@@ -176,6 +176,16 @@ impl Writer {
             ));
         }
 
+        if batch
+            .iter()
+            .any(|data| (PREFIX_META_SIZE as u64) + (data.len() as u64) > MAX_ALLOC)
+        {
+            return Err(std::io::Error::new(
+                std::io::ErrorKind::InvalidInput,
+                "invalid allocation size, a single entry can't be more than 1gb",
+            ));
+        }
+
         if batch.is_empty() {
             return Ok(());
         }
@@ -245,19 +255,29 @@ impl Writer {
                     need,
                     block.limit
                 );
-                FileStateTracker::set_block_unlocked(block.id as usize);
+                // Allocate the new block first so that a failed allocation leaves the block
+                // being planned unsealed.
+                // SAFETY: We hold locks, so this writer has exclusive ownership
+                let new_block =
+                    match unsafe { self.allocator.alloc_block(need.max(DEFAULT_BLOCK_SIZE)) } {
+                        Ok(b) => b,
+                        Err(e) => {
+                            revert_info.rollback(&mut *cur_offset);
+                            return Err(e);
+                        }
+                    };
+                debug_print!("[batch] allocated new block_id={}", new_block.id);
                 let mut sealed = block.clone();
                 sealed.used = planning_offset;
-                sealed.mmap.flush()?;
+                if let Err(e) = sealed.mmap.flush() {
+                    FileStateTracker::set_block_unlocked(new_block.id as usize);
+                    revert_info.rollback(&mut *cur_offset);
+                    return Err(e);
+                }
+                FileStateTracker::set_block_unlocked(block.id as usize);
                 let _ = self.reader.append_block_to_chain(&self.col, sealed);
                 #[cfg(walrus_verif)]
                 crate::wal::verif::sched_point("bw_after_seal");
-
-                // Allocate new block
-                // SAFETY: We hold locks, so this writer has exclusive ownership
-                let new_block =
-                    unsafe { self.allocator.alloc_block(need.max(DEFAULT_BLOCK_SIZE))? };
-                debug_print!("[batch] allocated new block_id={}", new_block.id);
 
                 revert_info.allocated_block_ids.push(new_block.id);
                 *block = new_block;
@@ -329,10 +349,7 @@ impl Writer {
                     }
                 }
 
-                *cur_offset = revert_info.original_offset;
-                for block_id in revert_info.allocated_block_ids {
-                    FileStateTracker::set_block_unlocked(block_id as usize);
-                }
+                revert_info.rollback(&mut *cur_offset);
                 return Err(e);
             }
         }
@@ -398,6 +415,15 @@ impl Writer {
                 )
             })?;
 
+            // Same limit (and error) as Block::write on the sequential path.
+            if meta_bytes.len() > PREFIX_META_SIZE - 2 {
+                revert_info.rollback(cur_offset);
+                return Err(std::io::Error::new(
+                    std::io::ErrorKind::InvalidData,
+                    "metadata too large",
+                ));
+            }
+
             let mut meta_buffer = vec![0u8; PREFIX_META_SIZE];
             meta_buffer[0] = (meta_bytes.len() & 0xFF) as u8;
             meta_buffer[1] = ((meta_bytes.len() >> 8) & 0xFF) as u8;
@@ -414,10 +440,7 @@ impl Writer {
                 io_uring::types::Fd(fd_backend.file().as_raw_fd())
             } else {
                 // Rollback and fail
-                *cur_offset = revert_info.original_offset;
-                for block_id in revert_info.allocated_block_ids.iter() {
-                    FileStateTracker::set_block_unlocked(*block_id as usize);
-                }
+                revert_info.rollback(cur_offset);
                 return Err(std::io::Error::new(
                     std::io::ErrorKind::Unsupported,
                     "batch writes require FD backend",
@@ -522,10 +545,7 @@ impl Writer {
                     }
 
                     // Rollback
-                    *cur_offset = revert_info.original_offset;
-                    for block_id in revert_info.allocated_block_ids.iter() {
-                        FileStateTracker::set_block_unlocked(*block_id as usize);
-                    }
+                    revert_info.rollback(cur_offset);
                     return Err(std::io::Error::new(
                         std::io::ErrorKind::Other,
                         "batch write failed, rolled back",
@@ -569,10 +589,7 @@ impl Writer {
                 }
 
                 // Rollback
-                *cur_offset = revert_info.original_offset;
-                for block_id in revert_info.allocated_block_ids.iter() {
-                    FileStateTracker::set_block_unlocked(*block_id as usize);
-                }
+                revert_info.rollback(cur_offset);
                 Err(e)
             }
         }
@@ -582,6 +599,21 @@ impl Writer {
 struct BatchRevertInfo {
     original_offset: u64,
     allocated_block_ids: Vec<u64>,
+}
+
+impl BatchRevertInfo {
+    /// Undo the offset bookkeeping of a failed batch. If planning moved the writer into a
+    /// freshly allocated block, the earlier blocks are already sealed and published to the
+    /// readers, and that new block stays the active (still locked) one: it restarts at
+    /// offset 0. Restoring the old block's offset there would leave a zeroed gap at the
+    /// start of the block, behind which no reader and no recovery scan ever looks.
+    fn rollback(&self, cur_offset: &mut u64) {
+        *cur_offset = if self.allocated_block_ids.is_empty() {
+            self.original_offset
+        } else {
+            0
+        };
+    }
 }
 
 impl Writer {
